@@ -557,6 +557,201 @@ fn forge_bits(g: &str, a: &Args) -> R<String> {
     Ok(format!("honest={} groups={} tried={} accepted={} rejected={} stuck={}{}", honest_sat as u8, groups, tried, accepted, rejected, stuck, detail))
 }
 
+/// single-variable mutation attack (C14).  The gadget is synthesised honestly, its (field-valued) output is pinned to a
+/// fresh last witness `o` by one linear row, and then every witness allocated INSIDE the gadget (after its inputs) is in
+/// turn replaced by a few other values (0, 1, -v, v+1, 2v); later witnesses are re-derived, row by row in emission
+/// order, from the row that defines them (the first row in which they are the newest variable).  If every row ends up
+/// satisfied and `o` changed, the prover has a second witness for the same inputs with a DIFFERENT output: a dropped or
+/// misplaced constraint.  A variable the gadget deliberately leaves free up to something the output does not depend on
+/// (the sign of the square root) is accepted with an unchanged output and is not a violation.
+fn mutate_fuzz(g: &str, a: &Args) -> R<String> {
+    verif::set_hints(a.hints()?);
+    let cs = new_cs(false);
+    // inputs first, then the gadget, then the output as one field element
+    let (k0, out): (usize, FqVar) = match g {
+        "compress" => {
+            let ev = alloc_plain(&cs, a.elem("e")?)?;
+            let k0 = cs.num_witness_variables();
+            (k0, ev.compress_to_field().map_err(se)?)
+        }
+        "decompress" => {
+            let sv = alloc_fq(a, &cs, a.fq("s")?)?;
+            let k0 = cs.num_witness_variables();
+            let ev = ElementVar::decompress_from_field(sv).map_err(se)?;
+            (k0, ev.compress_to_field().map_err(se)?)
+        }
+        "elligator" => {
+            let rv = alloc_fq(a, &cs, a.fq("r0")?)?;
+            let k0 = cs.num_witness_variables();
+            let ev = ElementVar::encode_to_curve(&rv).map_err(se)?;
+            (k0, ev.compress_to_field().map_err(se)?)
+        }
+        "abs" => {
+            let xv = alloc_fq(a, &cs, a.fq("x")?)?;
+            let k0 = cs.num_witness_variables();
+            (k0, xv.abs().map_err(se)?)
+        }
+        "add" | "sub" => {
+            let xv = alloc_plain(&cs, a.elem("a")?)?;
+            let yv = alloc_plain(&cs, a.elem("b")?)?;
+            let k0 = cs.num_witness_variables();
+            let z = if g == "add" { xv + yv } else { xv - yv };
+            (k0, z.compress_to_field().map_err(se)?)
+        }
+        "scalarmul" => {
+            let xv = alloc_plain(&cs, a.elem("a")?)?;
+            let bits = a.get("bits").ok_or("bad-op")?;
+            let mut bv = Vec::new();
+            for ch in bits.chars() {
+                bv.push(Boolean::new_witness(cs.clone(), || Ok(ch == '1')).map_err(se)?);
+            }
+            let k0 = cs.num_witness_variables();
+            let z = xv.scalar_mul_le(bv.iter()).map_err(se)?;
+            (k0, z.compress_to_field().map_err(se)?)
+        }
+        _ => return Err("unsupported".into()),
+    };
+    let honest_out = out.value().map_err(se)?;
+    let o = FqVar::new_witness(cs.clone(), || Ok(honest_out)).map_err(se)?;
+    out.enforce_equal(&o).map_err(se)?;
+    let honest_sat = cs.is_satisfied().map_err(se)?;
+    if !honest_sat {
+        return Ok("honest=0".into());
+    }
+    cs.finalize();
+    let m = cs.to_matrices().ok_or("no-matrices")?;
+    let ni = m.num_instance_variables;
+    let nw = m.num_witness_variables;
+    let mut z: Vec<Fq> = Vec::new();
+    {
+        let b = cs.borrow().ok_or("no-cs")?;
+        z.extend(b.instance_assignment.iter().cloned());
+        z.extend(b.witness_assignment.iter().cloned());
+    }
+    let o_idx = ni + nw - 1;
+    let eval = |row: &Vec<(Fq, usize)>, z: &Vec<Fq>| -> Fq { row.iter().fold(Fq::zero(), |acc, (c, i)| acc + *c * z[*i]) };
+    let nrows = m.a.len();
+    let mut def_row: Map<usize, usize> = Map::new();
+    let mut first_row: Map<usize, usize> = Map::new();
+    for i in 0..nrows {
+        let mut mx = None;
+        for (_, v) in m.a[i].iter().chain(m.b[i].iter()).chain(m.c[i].iter()) {
+            first_row.entry(*v).or_insert(i);
+            mx = Some(mx.map_or(*v, |x: usize| x.max(*v)));
+        }
+        if let Some(v) = mx {
+            def_row.entry(v).or_insert(i);
+        }
+    }
+    // bit-decomposition rows  0 * 0 = sum 2^k b_k - x : when the decomposed value changes, the honest prover re-derives
+    // the canonical bits, and so does the propagation
+    let nbits = Fq::MODULUS_BIT_SIZE as usize;
+    let mut p2: Map<Vec<u8>, usize> = Map::new();
+    {
+        let mut c = Fq::from(1u64);
+        for k in 0..nbits {
+            p2.insert(fq_bytes(&c), k);
+            c.double_in_place();
+        }
+    }
+    let mut decomp: Map<usize, (Vec<usize>, Vec<(Fq, usize)>)> = Map::new();
+    for i in 0..nrows {
+        if !(m.a[i].is_empty() && m.b[i].is_empty()) {
+            continue;
+        }
+        let mut bits: Vec<Option<usize>> = vec![None; nbits];
+        let mut rest: Vec<(Fq, usize)> = Vec::new();
+        for (coef, idx) in m.c[i].iter() {
+            let mut taken = false;
+            if let Some(k) = p2.get(&fq_bytes(coef)) {
+                if *idx >= ni && bits[*k].is_none() && (z[*idx].is_zero() || z[*idx] == Fq::from(1u64)) {
+                    bits[*k] = Some(*idx);
+                    taken = true;
+                }
+            }
+            if !taken {
+                rest.push((*coef, *idx));
+            }
+        }
+        if bits.iter().all(|b| b.is_some()) {
+            decomp.insert(i, (bits.into_iter().map(|b| b.unwrap()).collect(), rest));
+        }
+    }
+    let one = Fq::from(1u64);
+    let (mut tried, mut accepted_same, mut accepted_diff, mut stuck) = (0u64, 0u64, 0u64, 0u64);
+    let mut detail = String::new();
+    for w in (ni + k0)..o_idx {
+        let v = z[w];
+        let start = match first_row.get(&w) { Some(r) => *r, None => continue };
+        let mut cands = vec![Fq::zero(), one, -v, v + one, v + v];
+        cands.retain(|c| *c != v);
+        cands.dedup();
+        for c in cands {
+            tried += 1;
+            let mut zf = z.clone();
+            zf[w] = c;
+            let mut verdict = 0u8; // 0 accepted, 1 rejected, 2 stuck
+            for r in start..nrows {
+                let (av, bv, cv) = (eval(&m.a[r], &zf), eval(&m.b[r], &zf), eval(&m.c[r], &zf));
+                if av * bv == cv {
+                    continue;
+                }
+                if let Some((bits, rest)) = decomp.get(&r) {
+                    if bits.iter().all(|b| *b > w) {
+                        use ark_ff::BigInteger;
+                        // sum 2^k b_k + rest = 0  =>  the decomposed value is -rest
+                        let xval = -rest.iter().fold(Fq::zero(), |acc, (c, i)| acc + *c * zf[*i]);
+                        let big = xval.into_bigint();
+                        for (k, bi) in bits.iter().enumerate() {
+                            zf[*bi] = if big.get_bit(k) { Fq::from(1u64) } else { Fq::zero() };
+                        }
+                        continue;
+                    }
+                }
+                let u = m.a[r].iter().chain(m.b[r].iter()).chain(m.c[r].iter()).map(|(_, v)| *v).max().unwrap_or(0);
+                if u <= w || u < ni || def_row.get(&u) != Some(&r) {
+                    verdict = 1;
+                    break;
+                }
+                let coef_in = |row: &Vec<(Fq, usize)>| -> Fq { row.iter().filter(|(_, v)| *v == u).fold(Fq::zero(), |acc, (c, _)| acc + *c) };
+                let (ka, kb, kc) = (coef_in(&m.a[r]), coef_in(&m.b[r]), coef_in(&m.c[r]));
+                let n_in = [ka, kb, kc].iter().filter(|k| !k.is_zero()).count();
+                if n_in != 1 {
+                    verdict = 2;
+                    break;
+                }
+                if !kc.is_zero() {
+                    let rest = cv - kc * zf[u];
+                    zf[u] = (av * bv - rest) * kc.inverse().unwrap();
+                } else if !ka.is_zero() {
+                    if bv.is_zero() { verdict = 2; break; }
+                    let rest = av - ka * zf[u];
+                    zf[u] = (cv * bv.inverse().unwrap() - rest) * ka.inverse().unwrap();
+                } else {
+                    if av.is_zero() { verdict = 2; break; }
+                    let rest = bv - kb * zf[u];
+                    zf[u] = (cv * av.inverse().unwrap() - rest) * kb.inverse().unwrap();
+                }
+            }
+            match verdict {
+                0 => {
+                    if zf[o_idx] != z[o_idx] {
+                        accepted_diff += 1;
+                        if detail.is_empty() {
+                            detail = format!(";witness={};from={};to={};out={}->{}", w - ni, fqh(&v), fqh(&c), fqh(&z[o_idx]), fqh(&zf[o_idx]));
+                        }
+                    } else {
+                        accepted_same += 1;
+                    }
+                }
+                1 => {}
+                _ => stuck += 1,
+            }
+        }
+    }
+    Ok(format!("honest=1 vars={} tried={} free_same_output={} accepted_other_output={} stuck={}{}", nw - k0 - 1, tried, accepted_same, accepted_diff, stuck, detail))
+}
+
 fn fq_bytes(x: &Fq) -> Vec<u8> {
     use ark_serialize::CanonicalSerialize;
     let mut v = Vec::new();
@@ -593,6 +788,10 @@ pub fn exec_gadget(op: &str, args: &[&str]) -> String {
             let dom = (nc + ni).next_power_of_two();
             return Ok(format!("circuit:inst={},wit={},dom={} keys:inst={},wit={},dom={} sat={}", ni, nw, dom,
                 vk.gamma_abc_g1.len(), pk.l_query.len(), pk.h_query.len() + 1, cs.is_satisfied().map(|b| b as u8).unwrap_or(9)));
+        }
+        if op == "mutate" {
+            let g = a.get("gadget").ok_or("bad-op")?;
+            return mutate_fuzz(g, &a);
         }
         if op == "forge" {
             let g = a.get("gadget").ok_or("bad-op")?;
